@@ -85,7 +85,9 @@ SelfMvOps == {"value_or_mv", "deref_mv", "error_mv", "visit_mv"}
 MonadOps == {"and_then", "or_else", "transform", "transform_error"}
 ReadOps == {"deref", "arrow", "value", "error", "value_or", "error_or"}
 CmpOps == {"cmp_value", "cmp_value_r", "cmp_null", "cmp_null_r", "cmp_mixed", "cmp_mixed_r", "cmp_unexpected"}
-PureOps == MonadOps \cup ReadOps \cup CmpOps \cup {"conv_ref"}
+PureOps == MonadOps \cup ReadOps \cup CmpOps \cup {"conv_ref", "unex"}
+\* monadic operations the harness calls twice: on the object and through a const reference (both overloads)
+Doubled(kind, op) == (op = "and_then" /\ kind \in {"optional", "expected"}) \/ (op = "or_else" /\ kind = "expected")
 
 OpsOf(kind) ==
     CASE kind = "optional" ->
@@ -101,7 +103,7 @@ OpsOf(kind) ==
       [] kind = "expected" ->
             {"ctor_default", "ctor_inplace", "emplace"} \cup ValueOps \cup UnexOps \cup TwoObjOps
             \cup {"value_or_mv", "deref_mv", "error_mv", "and_then", "or_else", "transform", "transform_error",
-                  "deref", "arrow", "value", "error", "value_or", "error_or", "cmp_value", "cmp_unexpected"}
+                  "deref", "arrow", "value", "error", "value_or", "error_or", "cmp_value", "cmp_unexpected", "unex"}
       [] OTHER -> {}
 
 \* ---- precondition: the call is inside the domain the property quantifies over -----------------
@@ -178,7 +180,10 @@ Eff(kind, alts, op, o, x, s) ==
             \* visitor called once with the active alternative as an rvalue (category code 3), result passed through
             [st |-> [s EXCEPT ![o] = Mv(alts, ob)], ret |-> <<TC(Ty(alts, ob.idx)), pv, 3, 1, 100 * TC(Ty(alts, ob.idx)) + pv>>]
       [] op = "write_through" -> [st |-> [s EXCEPT !.r[ob.val] = x.v], ret |-> <<x.v>>]
-      [] op \in MonadOps -> [st |-> s, ret |-> MonadRet(kind, alts, op, s, ob)]
+      [] op \in MonadOps ->
+            LET m == MonadRet(kind, alts, op, s, ob) IN [st |-> s, ret |-> IF Doubled(kind, op) THEN m \o m ELSE m]
+      \* unexpected<E> u1(v), u2(d): <<u1.error(), u1 == u2, u1.error() and u2.error() after swap(u1, u2)>>
+      [] op = "unex" -> [st |-> s, ret |-> <<x.v, B(x.v = x.d), x.d, x.v>>]
       [] op = "cmp_value" ->
             [st |-> s, ret |-> IF kind = "expected" THEN FlagsEq(e /\ pv = x.v) ELSE Flags6(Key(kind, s, ob), <<1, x.v>>)]
       [] op = "cmp_value_r" -> [st |-> s, ret |-> Flags6(<<1, x.v>>, Key(kind, s, ob))]
